@@ -52,6 +52,16 @@ def create (z : ZRef) (w : Int) (fold raise : Bool) : Except Err V :=
     | .error .ambiguous => .error .ambiguous
     | .ok l => if inRange l.w then .ok ⟨z, l.w, l.fold⟩ else .error .overflow
 
+/-- `DateTime.instance` of an aware native value whose own UTC offset is `srcOff`: the wall time is
+    re-created in the pendulum zone with the source's fold, except that the other occurrence is chosen
+    when only it has the source's offset (tzinfo implementations that ignore `fold`, e.g. pytz) -/
+def instanceAware (z : ZRef) (w : Int) (fold : Bool) (srcOff : Int) : Except Err V :=
+  match z.table with
+  | none => create z w fold false
+  | some zt =>
+    let f' := if zt.woff fold w ≠ srcOff ∧ zt.woff (!fold) w = srcOff then !fold else fold
+    create z w f' false
+
 /-- `in_timezone` / `astimezone` / `Timezone.convert(aware)`; `same` = the target is the very tzinfo
     object the value already carries (CPython's `astimezone` returns the value unchanged) -/
 def inTz (v : V) (target : ZRef) (same : Bool) : Except Err V :=
